@@ -1,12 +1,16 @@
 //! Case types and generators. Every random choice is a proptest strategy.
 //!
-//! One table `t(a Int, b Int NULL, s String)`; the system column `_id` is column 3.
-//! Small value domains on purpose: statements of different transactions must overlap.
+//! Two tables `t` and `w` of the same shape `(a Int, b Int NULL, s String)`; the system column `_id` is
+//! column 3. Most statements address `t`; `w` hands out the same row ids, so locks and undo entries of
+//! one table must not leak into the other. Small value domains on purpose: statements of different
+//! transactions must overlap.
 
 use proptest::prelude::*;
 use serde::{Deserialize, Serialize};
 
 pub const NCOLS: usize = 4; // a, b, s, _id
+pub const NTABS: usize = 2;
+pub const TABLES: [&str; NTABS] = ["t", "w"];
 pub const COL_NAMES: [&str; NCOLS] = ["a", "b", "s", "_id"];
 pub const STRS: [&str; 3] = ["p", "q", "r"];
 pub const A_MAX: i64 = 3; // a in 0..=3
@@ -60,26 +64,26 @@ pub enum Stmt {
 #[derive(Clone, Debug, Serialize, Deserialize)]
 pub enum Op {
     Begin,
-    /// statement of the live transaction pick(h, live)
-    Tx { h: u16, stmt: Stmt },
-    TxSelect { h: u16, cond: Cond },
+    /// statement of the live transaction pick(h, live) on table `tb`
+    Tx { h: u16, tb: u8, stmt: Stmt },
+    TxSelect { h: u16, tb: u8, cond: Cond },
     Commit { h: u16 },
     Rollback { h: u16 },
     /// non-transactional statement (the engine runs it as an internal one-statement transaction)
-    Plain(Stmt),
-    Select(Cond),
+    Plain { tb: u8, stmt: Stmt },
+    Select { tb: u8, cond: Cond },
     /// call `kind` (0 insert 1 update 2 delete 3 select 4 commit 5 rollback) on a finished handle
     /// (or on an id that was never handed out when nothing is finished yet)
     UseFinished { h: u16, kind: u8 },
     /// create the index if absent, drop it if present; kind 0 = hash, 1 = btree
-    ToggleIndex { col: u8, btree: bool },
+    ToggleIndex { tb: u8, col: u8, btree: bool },
 }
 
 #[derive(Clone, Debug, Serialize, Deserialize)]
 pub struct Case {
-    /// per column (a, b, s, _id): bit 0 = hash index, bit 1 = btree index, created before the seed rows
-    pub idx: [u8; NCOLS],
-    pub seed: Vec<Vals>,
+    /// per table and column (a, b, s, _id): bit 0 = hash index, bit 1 = btree index, created before the seed rows
+    pub idx: [[u8; NCOLS]; NTABS],
+    pub seed: [Vec<Vals>; NTABS],
     /// allow index DDL while a transaction with pending changes is open (separate signature family)
     pub ddl_live: bool,
     pub ops: Vec<Op>,
@@ -142,17 +146,22 @@ pub fn stmt() -> BoxedStrategy<Stmt> {
     .boxed()
 }
 
+/// table of a statement: `t` three times out of four
+fn tb() -> impl Strategy<Value = u8> {
+    prop_oneof![3 => Just(0u8), 1 => Just(1u8)]
+}
+
 fn op() -> BoxedStrategy<Op> {
     prop_oneof![
         6 => Just(Op::Begin),
-        24 => (any::<u16>(), stmt()).prop_map(|(h, stmt)| Op::Tx { h, stmt }),
-        2 => (any::<u16>(), cond()).prop_map(|(h, cond)| Op::TxSelect { h, cond }),
+        24 => (any::<u16>(), tb(), stmt()).prop_map(|(h, tb, stmt)| Op::Tx { h, tb, stmt }),
+        2 => (any::<u16>(), tb(), cond()).prop_map(|(h, tb, cond)| Op::TxSelect { h, tb, cond }),
         4 => any::<u16>().prop_map(|h| Op::Commit { h }),
         7 => any::<u16>().prop_map(|h| Op::Rollback { h }),
-        8 => stmt().prop_map(Op::Plain),
-        1 => cond().prop_map(Op::Select),
+        8 => (tb(), stmt()).prop_map(|(tb, stmt)| Op::Plain { tb, stmt }),
+        1 => (tb(), cond()).prop_map(|(tb, cond)| Op::Select { tb, cond }),
         2 => (any::<u16>(), 0u8..6).prop_map(|(h, kind)| Op::UseFinished { h, kind }),
-        3 => (0u8..NCOLS as u8, any::<bool>()).prop_map(|(col, btree)| Op::ToggleIndex { col, btree }),
+        3 => (tb(), 0u8..NCOLS as u8, any::<bool>()).prop_map(|(tb, col, btree)| Op::ToggleIndex { tb, col, btree }),
     ]
     .boxed()
 }
@@ -170,8 +179,8 @@ fn idx_cfg() -> impl Strategy<Value = [u8; NCOLS]> {
 
 pub fn case_strategy(max_ops: usize) -> impl Strategy<Value = Case> {
     (
-        idx_cfg(),
-        prop::collection::vec(vals(), 0..8),
+        (idx_cfg(), idx_cfg()).prop_map(|(x, y)| [x, y]),
+        (prop::collection::vec(vals(), 0..8), prop::collection::vec(vals(), 0..5)).prop_map(|(x, y)| [x, y]),
         prop::bool::weighted(0.08),
         prop::collection::vec(op(), 0..=max_ops),
         any::<[bool; 4]>(),
@@ -194,6 +203,8 @@ pub struct ExpCase {
     pub u_sets: Sets,
     /// the second statement is issued non-transactionally
     pub u_plain: bool,
+    /// the second statement addresses the other table (same row ids, same contents): never blocked
+    pub u_other_table: bool,
 }
 
 pub fn exp_strategy() -> impl Strategy<Value = ExpCase> {
@@ -203,8 +214,9 @@ pub fn exp_strategy() -> impl Strategy<Value = ExpCase> {
         (prop::bool::weighted(0.3), cond(), sets()),
         (prop::bool::weighted(0.3), cond(), sets()),
         prop::bool::weighted(0.25),
+        prop::bool::weighted(0.2),
     )
-        .prop_map(|(idx, seed, (t_delete, t_cond, t_sets), (u_delete, u_cond, u_sets), u_plain)| ExpCase {
+        .prop_map(|(idx, seed, (t_delete, t_cond, t_sets), (u_delete, u_cond, u_sets), u_plain, u_other_table)| ExpCase {
             idx,
             seed,
             t_delete,
@@ -214,5 +226,6 @@ pub fn exp_strategy() -> impl Strategy<Value = ExpCase> {
             u_cond,
             u_sets,
             u_plain,
+            u_other_table,
         })
 }
